@@ -2432,7 +2432,9 @@ func generate(prop, tier string, seed uint64) []string {
 		// capitalisable, mixed, none capitalisable, one word, a lower/Title pair, duplicates) and
 		// the built-in lists, with and without --entropy
 		files := [][]string{{"one", "two", "three"}, {"one", "two", "4"}, {"4", "5", "正確"}, {"solo"}, {"polish", "Polish", "amber"},
-			{"dup", "dup", "other", "dup"}, {"Paris", "rome"}}
+			{"dup", "dup", "other", "dup"}, {"Paris", "rome"},
+			// capitalisable although the first character is not a lower-case letter; not capitalisable although it is
+			{"'tis", "x-ray", "amber"}, {"X-ray", "amber"}, {"ßeta", "amber"}, {"4ever", "o'neil"}}
 		for _, scheme := range []string{"none", "first", "all", "random", "one", "bogus"} {
 			for fi, ws := range files {
 				sepName := []string{"hyphen", "space", "comma", "period", "underscore", "digit", "none", "bogus"}[(fi+len(scheme))%8]
